@@ -12,11 +12,13 @@ import (
 	ammkeeper "github.com/elys-network/elys/x/amm/keeper"
 	ammtypes "github.com/elys-network/elys/x/amm/types"
 	aptypes "github.com/elys-network/elys/x/assetprofile/types"
+	ctypes "github.com/elys-network/elys/x/commitment/types"
 	otypes "github.com/elys-network/elys/x/oracle/types"
 	ptypes "github.com/elys-network/elys/x/parameter/types"
 	perpkeeper "github.com/elys-network/elys/x/perpetual/keeper"
 	perptypes "github.com/elys-network/elys/x/perpetual/types"
 	vrf "github.com/elys-network/elys/zzvrf"
+	_ "github.com/elys-network/elys/zzvrf/h_c02" // contract of Pool.JoinPool
 	"github.com/elys-network/elys/zzvrf/wire"
 )
 
@@ -656,3 +658,27 @@ func H_Open_Consolidate_Long() { openConsolidate(perptypes.Position_LONG) }
 //vrf:max-paths 8000
 //vrf:tier thorough
 func H_Open_Consolidate_Short() { openConsolidate(perptypes.Position_SHORT) }
+
+// ---- a liquidity-pool operation on a pool that has perpetual positions (C11: only the pool part is refreshed) ----
+
+// An all-asset join of the amm pool (Pool.JoinPool under contract: any shares, any part of the offered coins) while the
+// perpetual pool carries arbitrary custody and liabilities: afterwards the accounted balance is still reserve +
+// liabilities - custody for every asset, whatever the sign of liabilities - custody.
+//
+//vrf:summary (*github.com/elys-network/elys/x/amm/types.Pool).JoinPool => h_c02.SumPoolJoin
+//vrf:cover join-ok
+//vrf:bound symbolic perpetual aggregates (liabilities - custody of either sign per asset) and amm reserves; one join of the amm pool with symbolic amounts; Pool.JoinPool under contract
+func H_AmmJoin_KeepsAccountedPool() {
+	s := setup()
+	env, ctx := s.env, s.env.Ctx
+	env.Comm.SetParams(ctx, ctypes.DefaultParams())
+	ma, mu := vrf.Int("maxAtom"), vrf.Int("maxUsdc")
+	vrf.Assume(ma.IsPositive())
+	vrf.Assume(mu.IsPositive())
+	_, _, err := env.Amm.JoinPoolNoSwap(ctx, trader, 1, sdkmath.NewInt(1), sdk.Coins{{Denom: atom, Amount: ma}, {Denom: usdc, Amount: mu}})
+	if err != nil {
+		return
+	}
+	vrf.Cover("join-ok")
+	s.check("amm join")
+}
